@@ -10,6 +10,7 @@ import (
 	"os"
 	"path/filepath"
 	"runtime"
+	"runtime/debug"
 	"sort"
 	"sync/atomic"
 	"testing"
@@ -40,6 +41,10 @@ func TestWorker(t *testing.T) {
 	out := bufio.NewWriterSize(os.Stdout, 1<<16)
 	defer out.Flush()
 	props.Tick = func() { progress.Add(1) }
+	gosim.Alive = props.Tick
+	// a modest stack limit: recursion that grows with the LENGTH of the input (not with its nesting depth,
+	// which go.sh bounds) ends the process on inputs of a megabyte instead of hundreds of megabytes
+	debug.SetMaxStack(16 << 20)
 	switch job.Mode {
 	case "explore":
 		go watchdog(out)
